@@ -29,6 +29,8 @@ EXPLANATION = (
     "detrend numerics.")
 
 RULES = {
+    "C10.R1#R1": "(orientation step, shared with C04) orient_sensor_to is the rotation by (target - current orientation)",
+    "C10.R1#R3": "(orientation step, shared with C04) the rotation preserves ns^2 + ew^2",
     "C10.R1": "orient < filter(record) < split < detrend(window) on every path; sosfiltfilt; all three components",
     "C10.R2": "components split identically and zipped in (ns, ew, vt) order with orientation and meta",
     "C10.R3": "tiling recurrence: S=k+1, start'=start+S-1, slice of self.amplitude, n_windows=floor(n/k), refusal",
@@ -38,8 +40,20 @@ RULES = {
 
 def run(ck: Checker, prog: Program, tier: str):
     ck.guard(_r1, ck, prog)
+    ck.guard(_orientation_step, ck, prog)
     ck.guard(_r2, ck, prog)
     ck.guard(_r3_r4, ck, prog)
+
+
+def _orientation_step(ck: Checker, prog: Program):
+    """The first documented step: orienting rotates by (target - current orientation of the record)."""
+    from . import c04
+    old = c04.P
+    c04.P = "C10.R1#"
+    try:
+        c04._r1_r3(ck, prog)
+    finally:
+        c04.P = old
 
 
 def _stmt_of(n):
